@@ -211,27 +211,39 @@ func (conn *diskConn) open(extension string) error {
 	return nil
 }
 
+// closeFile flushes all tracks except the given one and closes the
+// current file.  It does not reset the time origins.
 // called locked
-func (conn *diskConn) close() []*diskTrack {
-	conn.originLocal = time.Time{}
-	conn.originRemote = 0
-
+func (conn *diskConn) closeFile(except *diskTrack) {
 	// flush all tracks before closing any writer: flushing a track may
 	// open a new file, which installs writers for all tracks.
 	for _, t := range conn.tracks {
-		t.writeBuffered(true)
+		if t != except {
+			t.writeBuffered(true)
+		}
 	}
 
-	tracks := make([]*diskTrack, 0, len(conn.tracks))
 	for _, t := range conn.tracks {
 		if t.writer != nil {
 			t.writer.Close()
 			t.writer = nil
 		}
+	}
+	conn.file = nil
+}
+
+// called locked
+func (conn *diskConn) close() []*diskTrack {
+	conn.closeFile(nil)
+
+	conn.originLocal = time.Time{}
+	conn.originRemote = 0
+
+	tracks := make([]*diskTrack, 0, len(conn.tracks))
+	for _, t := range conn.tracks {
 		t.origin = none
 		tracks = append(tracks, t)
 	}
-	conn.file = nil
 	return tracks
 }
 
@@ -739,7 +751,10 @@ func (conn *diskConn) initWriter(width, height uint32, track *diskTrack, ts uint
 		if width == conn.width && height == conn.height {
 			return nil
 		} else {
-			conn.close()
+			// the resolution has changed, start a new file.
+			// Keep the origins, they are rebased below; don't
+			// flush the track that is in the middle of writing.
+			conn.closeFile(track)
 		}
 	}
 
